@@ -745,7 +745,7 @@ func (w *c12Runner) runBlock(step time.Duration, pre, txs, env []*c12Act) {
 		preJailed[string(v.addr)] = v.jailed
 	}
 	for _, a := range txs {
-		if a.kind == "delegate" || a.kind == "govsubmit" || a.kind == "govvote" {
+		if a.kind == "delegate" || a.kind == "undelegate" || a.kind == "govsubmit" || a.kind == "govvote" {
 			continue // environment only: the effect is observed (power change / executed proposal)
 		}
 		w.op(a.line(h, t), a.res)
@@ -871,8 +871,19 @@ func (w *c12Runner) runBlock(step time.Duration, pre, txs, env []*c12Act) {
 					w.r.Stat("sweep.due.protected")
 					w.nontriv["protected"] = true
 					if v.status != "b" {
-						// watch item: an unbonding validator is not jailed because ONE OTHER validator is active
+						// STRICT reading of the property: this validator is not bonded, so it is neither
+						// "the last active validator" nor a holder of any bonded power, yet `Jail` refuses
+						// because exactly ONE OTHER validator is active (`count == 1` is a global test).
+						// Genuine deviation of the code from the property text: reported under the stable
+						// key `last-validator-global:` (matched against known_findings.json).
 						w.r.Stat("watch.last_validator_rule_shields_inactive.sweep")
+						// Rec keeps only the first 50 hits: report at most 5 of this known kind per world so
+						// that it can never crowd a different violation out of the evidence (the stats count all)
+						w.r.Stat("watch.last_validator_rule_shields_inactive.sweep." + w.be.kind())
+						if w.r.Stats["watch.last_validator_rule_shields_inactive.sweep."+w.be.kind()] <= 5 {
+							w.r.Hit("inactive_jailed", fmt.Sprintf("last-validator-global: [%s] %s (status %s, alive-until %s, grace %s, consensus power 0) not jailed at sweep height %d because exactly one OTHER validator is bonded and unjailed",
+								w.be.kind(), c12Hex(v.addr), v.status, c12Opt(v.alive), c12Opt(v.grace), h), w.replay())
+						}
 					}
 				} else {
 					w.hit("inactive_jailed", fmt.Sprintf("%s (status %s, alive-until %s, grace %s, power %d) not jailed at sweep height %d and not protected", c12Hex(v.addr), v.status, c12Opt(v.alive), c12Opt(v.grace), v.power, h))
